@@ -23,6 +23,15 @@ fn f64of<F: Float>(v: F) -> f64 {
     v.to_f64().unwrap_or(f64::NAN)
 }
 
+/// (round(v*1e6), representable?) -- TLC cannot compare strings with integers, so non-finite or
+/// too large values are logged as 0 with the flag false
+fn fx6(v: f64) -> (i64, bool) {
+    match fx(v, 1e6).as_i64() {
+        Some(i) => (i, true),
+        None => (0, false),
+    }
+}
+
 fn walk<F: Float, L: linfa::Label + std::fmt::Debug>(
     node: &TreeNode<F, L>,
     path: &mut Vec<i64>,
@@ -37,6 +46,7 @@ fn walk<F: Float, L: linfa::Label + std::fmt::Debug>(
     let ch = node.children();
     let (feat, thr, dec) = node.split();
     let pred = node.prediction().map(|l| from_l(&l)).unwrap_or(-1);
+    let (dec6, decok) = fx6(f64of(dec));
     out.push(json!({
         "path": path.clone(),
         "depth": node.depth(),
@@ -45,7 +55,8 @@ fn walk<F: Float, L: linfa::Label + std::fmt::Debug>(
         "hasr": ch[1].is_some(),
         "feat": feat,
         "thr2": exact_int(2.0 * f64of(thr)),
-        "dec6": fx(f64of(dec), 1e6),
+        "dec6": dec6,
+        "decok": decok,
         "deck": key64(f64of(dec)),
         "pred": pred,
     }));
@@ -166,8 +177,10 @@ fn go<F: Float, L: linfa::Label + Default + std::fmt::Debug>(
         Ok((imp, mean)) => {
             let impf: Vec<f64> = imp.iter().map(|v| f64of(*v)).collect();
             let meanf: Vec<f64> = mean.iter().map(|v| f64of(*v)).collect();
-            ev.push(json!({"ev": "imp", "imp6": fxv(impf.iter(), 1e6), "impk": impf.iter().map(|v| key64(*v)).collect::<Vec<_>>(),
-                           "mean6": fxv(meanf.iter(), 1e6), "finite": all_finite(impf.iter())}));
+            ev.push(json!({"ev": "imp",
+                           "imp6": impf.iter().map(|v| fx6(*v).0).collect::<Vec<_>>(), "impok": impf.iter().map(|v| fx6(*v).1).collect::<Vec<_>>(),
+                           "impk": impf.iter().map(|v| key64(*v)).collect::<Vec<_>>(),
+                           "mean6": meanf.iter().map(|v| fx6(*v).0).collect::<Vec<_>>(), "meanok": meanf.iter().map(|v| fx6(*v).1).collect::<Vec<_>>()}));
         }
         Err(msg) => ev.push(panic_event("importance", &msg)),
     }
@@ -196,6 +209,90 @@ fn run(case: &Value) -> Vec<Value> {
     }
 }
 
+/// One trace line `{"id","kind","inp","ev"}` (the envelope of `vh::run_cases`).
+fn envelope(case: &Value, ev: Vec<Value>) -> Value {
+    json!({"id": case.get("id").cloned().unwrap_or(Value::Null), "kind": case.get("kind").cloned().unwrap_or(json!("")),
+           "inp": case.get("inp").cloned().unwrap_or(json!({})), "ev": ev})
+}
+
+/// Worker process: runs the cases of argv[1] one after the other and appends each trace to argv[2]
+/// immediately, so that the parent knows which case killed the process if it dies.
+fn worker() {
+    use std::io::Write;
+    silence_panics();
+    let cases = read_cases();
+    let out = std::env::args().nth(2).expect("worker output path");
+    let mut f = std::fs::OpenOptions::new().create(true).append(true).open(out).expect("open worker output");
+    for c in &cases {
+        let ev = match guarded(|| run(c)) {
+            Ok(ev) => ev,
+            Err(msg) => vec![panic_event("harness", &msg)],
+        };
+        writeln!(f, "{}", envelope(c, ev)).unwrap();
+        f.flush().unwrap();
+    }
+}
+
+/// `TreeNode::fit` is recursive: a defect that makes it recurse without end overflows the stack, which
+/// aborts the process and cannot be caught. The cases are therefore executed in child processes; a case
+/// that kills its worker is recorded as `{"ev":"panic","at":"fit","msg":"process aborted ..."}` (an event
+/// no specification action explains) and the remaining cases are run in a fresh worker.
 fn main() {
-    run_cases(run);
+    if std::env::var("C14_WORKER").is_ok() {
+        worker();
+        return;
+    }
+    let cases = read_cases();
+    let out_path = std::env::args().nth(2).expect("usage: c14 cases.ndjson traces.ndjson");
+    let exe = std::env::current_exe().expect("current exe");
+    let nthreads: usize = std::env::var("VH_THREADS").ok().and_then(|s| s.parse().ok()).unwrap_or(8);
+    let chunk = ((cases.len() + nthreads - 1) / nthreads.max(1)).max(1);
+    let mut results: Vec<Vec<Value>> = Vec::new();
+    std::thread::scope(|sc| {
+        let handles: Vec<_> = cases
+            .chunks(chunk)
+            .enumerate()
+            .map(|(k, cs)| {
+                let exe = &exe;
+                let out_path = &out_path;
+                sc.spawn(move || {
+                    let mut done: Vec<Value> = Vec::new();
+                    let mut rest: Vec<Value> = cs.to_vec();
+                    let inp = format!("{}.w{}.in", out_path, k);
+                    let outp = format!("{}.w{}.out", out_path, k);
+                    while !rest.is_empty() {
+                        let text: String = rest.iter().map(|c| format!("{}\n", c)).collect();
+                        std::fs::write(&inp, text).expect("write worker input");
+                        let _ = std::fs::remove_file(&outp);
+                        let _status = std::process::Command::new(exe)
+                            .arg(&inp)
+                            .arg(&outp)
+                            .env("C14_WORKER", "1")
+                            .stderr(std::process::Stdio::null())
+                            .status();
+                        let lines: Vec<Value> = std::fs::read_to_string(&outp)
+                            .unwrap_or_default()
+                            .lines()
+                            .filter_map(|l| vh::serde_json::from_str(l).ok())
+                            .collect();
+                        let m = lines.len().min(rest.len());
+                        done.extend(lines.into_iter().take(m));
+                        if m == rest.len() {
+                            break;
+                        }
+                        done.push(envelope(&rest[m], vec![panic_event("fit", "process aborted while running this case (stack overflow or abort)")]));
+                        rest = rest[m + 1..].to_vec();
+                    }
+                    let _ = std::fs::remove_file(&inp);
+                    let _ = std::fs::remove_file(&outp);
+                    done
+                })
+            })
+            .collect();
+        for h in handles {
+            results.push(h.join().expect("worker thread"));
+        }
+    });
+    let all: Vec<Value> = results.into_iter().flatten().collect();
+    write_traces(&all);
 }
